@@ -23,6 +23,9 @@ struct Block {
     std::size_t align;
     std::uint32_t gen;
     bool quarantined;
+#ifdef VF_TRACK_BT
+    void* bt[10];
+#endif
 };
 
 struct Snapshot {
@@ -72,6 +75,23 @@ struct Guard {
     ~Guard() { g_lock.clear(std::memory_order_release); }
 };
 inline std::size_t h(std::uintptr_t a) { return static_cast<std::size_t>((a >> 4U) * 0x9E3779B97F4A7C15ULL) & (kCap - 1); }
+#ifdef VF_TRACK_BT
+}
+}
+#include <execinfo.h>
+namespace track {
+namespace {
+thread_local bool g_in_bt = false;
+void track_capture_bt(void** out) {
+    for (int i = 0; i < 10; ++i) { out[i] = nullptr; }
+    if (g_in_bt) { return; }
+    g_in_bt = true;
+    void* tmp[14];
+    int n = backtrace(tmp, 14);
+    for (int i = 0; i < 10 && i + 3 < n; ++i) { out[i] = tmp[i + 3]; }
+    g_in_bt = false;
+}
+#endif
 void ensure() {
     if (g_tab == nullptr) { g_tab = static_cast<Block*>(std::calloc(kCap, sizeof(Block))); }
 }
@@ -89,6 +109,9 @@ void insert(std::uintptr_t a, std::size_t size, std::size_t align) {
         if (g_tab[i].addr == 0 || g_tab[i].addr == 1) {
             if (g_tab[i].addr == 0) { ++g_used; }
             g_tab[i] = Block{a, size, align, g_gen, false};
+#ifdef VF_TRACK_BT
+            track_capture_bt(g_tab[i].bt);
+#endif
             return;
         }
     }
@@ -183,6 +206,9 @@ void describe_generation(std::uint32_t gen, char* buf, std::size_t n) {
     for (std::size_t i = 0; i < kCap && shown < 6 && off + 40 < n; ++i) {
         if (g_tab[i].addr > 1 && !g_tab[i].quarantined && g_tab[i].gen == gen) {
             off += static_cast<std::size_t>(std::snprintf(buf + off, n - off, "[%zuB align %zu] ", g_tab[i].size, g_tab[i].align));
+#ifdef VF_TRACK_BT
+            backtrace_symbols_fd(g_tab[i].bt, 10, 2);
+#endif
             ++shown;
         }
     }
